@@ -6,16 +6,16 @@ set -u
 NAME=$1; PROP=$2; SRC=$3; shift 3; EXTRA="$@"
 WT=$(mktemp -d /tmp/vfseed.XXXXXX); rmdir $WT
 git -C /repo worktree add -q --detach $WT HEAD || exit 3
-trap 'git -C /repo worktree remove --force $WT >/dev/null 2>&1' EXIT
+trap 'git -C /repo worktree remove --force $WT >/dev/null 2>&1; rm -f $WT.demo0.log $WT.tests.log $WT.demo1.log' EXIT
 PY=/verif/.venv/bin/python
 cd $WT
 # demo on the unchanged tree
-PYTHONPATH=$WT timeout 600 $PY $SRC/demo.py >/tmp/vfseed_demo0.log 2>&1; D0=$?
+PYTHONPATH=$WT timeout 600 $PY $SRC/demo.py >$WT.demo0.log 2>&1; D0=$?
 git apply $SRC/patch.diff || { echo "patch does not apply"; exit 3; }
 FILES=$(git diff --name-only | tr '\n' ' ')
-/venv/bin/python -m pytest -q -p no:cacheprovider --timeout=900 --continue-on-collection-errors > /tmp/vfseed_tests.log 2>&1
-TESTS=$(tail -1 /tmp/vfseed_tests.log)
-PYTHONPATH=$WT timeout 600 $PY $SRC/demo.py >/tmp/vfseed_demo1.log 2>&1; D1=$?
+/venv/bin/python -m pytest -q -p no:cacheprovider --timeout=900 --continue-on-collection-errors > $WT.tests.log 2>&1
+TESTS=$(tail -1 $WT.tests.log)
+PYTHONPATH=$WT timeout 600 $PY $SRC/demo.py >$WT.demo1.log 2>&1; D1=$?
 cd /verif
 declare -A RES
 OUT=""
